@@ -569,11 +569,15 @@ fn run_gate(a: &Args) -> Report {
     // builds its slice. Also with a clear or an is_empty poll in the reader's place.
     for round in 0..rounds.max(2) {
         for &prefill in PREFILLS {
-            for rk in [1u8, 2, 3] {
+            for rk in [1u8, 2, 3, 4] {
                 combos += 1;
                 if combos % a.shards != a.shard {
                     continue;
                 }
+                // rk 4: a snapshot reader arriving after A stalled and B completed; it has to wait for A however long
+                // that takes (A is only released once the reader has spun 30 times on the block, or has finished)
+                let late_reader = rk == 4;
+                let rk = if late_reader { 1 } else { rk };
                 let (win_point, spin): (&str, &str) = match rk {
                     1 => ("bucket.data.after_quiesce", "bucket.data.spin"),
                     2 => ("bucket.clear.after_detach", "bucket.clear.spin"),
@@ -581,7 +585,11 @@ fn run_gate(a: &Args) -> Report {
                 };
                 let roles = vec![(rk, gen_program(&mut r, rk, 1)), (0u8, gen_program(&mut r, 0, 1)), (0u8, gen_program(&mut r, 0, 1 + (round % 2) as usize))];
                 let mut rules = Vec::new();
-                if rk == 1 {
+                if late_reader {
+                    rules.push(Rule::new(1, "bucket.block_push.after_claim", 1, 0, spin, 30));
+                    rules.push(Rule::new(2, "@start", 1, 1, "bucket.block_push.after_claim", 1));
+                    rules.push(Rule::new(0, "@start", 1, 2, "@done", 1));
+                } else if rk == 1 {
                     rules.push(Rule::new(1, "@start", 1, 0, win_point, 1));
                     rules.push(Rule::new(0, win_point, 1, 2, "@done", 1));
                     rules.push(Rule::new(1, "bucket.block_push.after_claim", 1, 0, "@done", 1));
@@ -598,7 +606,7 @@ fn run_gate(a: &Args) -> Report {
                 if ex.unsat > 0 {
                     rep.count("gate:unsatisfiable-schedule(ran-ungated)", 1);
                 } else if ex.expired == 0 {
-                    rep.count(&format!("gate-hit:hole-in-completion-bitmap:reader{}", rk), 1);
+                    rep.count(&format!("gate-hit:hole-in-completion-bitmap:reader{}{}", rk, if late_reader { ":arriving-late" } else { "" }), 1);
                 }
                 report_exec(&mut rep, &ex, &mut sigset, &mut win, "gate", sched);
             }
